@@ -91,7 +91,7 @@ prop("C12", "proof",
 prop("C13", "proof",
      "Coq theorems over Z (model's modexp proved equal to b^e mod n): cl_sign_verify_complete -- every signature sign_multiattr returns verifies, for any number of attributes, "
      "any bases coprime to N, any draws (premise: Euler's theorem for N, true for N = p q); e leaves the loop with exactly le bits and coprime to phi; disclose_verify_complete -- for every list of hidden positions (any order, repetitions) disclose_selectively succeeds and the signature verifies on the disclosed (bases', msgs'); shift_forgery_rejected "
-     "(m_i + k e is refused whatever v: F7, repaired by c3225ee) with the pinned tree's acceptance kept as a machine-checked finding; non-canonical v refused (F14, 222458b). "
+     "(m_i + k e is refused whatever v: F7, repaired by c3225ee) with the pinned tree's acceptance kept as a machine-checked finding; non-canonical v refused (F14, 222458b); both bounds on e in verify_multiattr (F18, 72cfca4: (e + k phi, s, v) verified before). "
      "Tied to the code by integer-for-integer correspondence of sign / verify / disclose / codecs under the production RNG (draw kinds and bit lengths included) on a toy suite "
      "and CL1024, and a sweep of every negative class the property lists. PARTIAL: 'other attribute vector / other bases / other key is rejected' rests on the strong RSA "
      "assumption (sweep + correspondence only).", "DESIGN.md §10 C13", NOTE_CL)
@@ -104,7 +104,7 @@ prop("C14", "proof",
      "(attribute count other than one); gating (blind_sign returns only when verify_proof returned true; a false proof is a panic = refusal); cl_update_complete (re-issuing after a revealed attribute changed verifies on the updated vector; verify_two_vectors_reduces: acceptance on the old vector too would make the two products of powers congruent); consumes: every generator only "
      "takes draws from the front of the log. PARTIAL: rejection of mismatching / edited proofs is decided by correspondence (proofs equal integer for integer with logged draws; "
      "decisions equal on every mutated instance) + sweep over ALL non-empty U for n <= 3 (thorough 5), with and without trusted commitment, update_signature, field edits. "
-     "Known findings F9 (unused randomness leaves) and F15 (sub-proof pairs not tied to C; zkpok_subproofs_untied) reported, not hidden; F15a repaired by 56a5ca8 (zkpok_loop_ties_range_proofs).",
+     "Known findings F9 (unused randomness leaves) and F15 (sub-proof pairs not tied to C; zkpok_subproofs_untied) reported, not hidden; F15a repaired by 56a5ca8 (zkpok_loop_ties_range_proofs), F17 by 386b611 (zkpok_accepts_lengths).",
      "DESIGN.md §10 C14", NOTE_CL)
 prop("C15", "proof",
      "Proved: spok_complete -- COMPLETENESS of the whole proof of knowledge: for every modulus, every number of attributes, every strictly increasing list U of hidden positions, "
@@ -112,7 +112,7 @@ prop("C15", "proof",
      "(nine-response protocol nisp5_complete with its five congruences; per-attribute opening proofs nisp2sec_complete_u; all range proofs boudot_complete; premises: commitment "
      "key over the issuer modulus, invertible bases -- each checked against the implementation's run by the harness); an accepted proof has its range proof on e made for the "
      "sigma protocol's commitment Ce and passes the five-equation check. PARTIAL: rejection of mismatching statements / edited fields is decided by correspondence "
-     "(integer for integer, logged draws) + sweep over ALL U for n <= 3 (thorough 5). Known findings F9 (unused randomness leaves) and F15 (per-attribute sub-proof pairs not tied to the signature; spok_subproofs_untied) reported; F15a (range proof not tied to its opening proof) repaired by 56a5ca8 (spok_loop_ties_range_proofs).", "DESIGN.md §10 C15", NOTE_CL)
+     "(integer for integer, logged draws) + sweep over ALL U for n <= 3 (thorough 5). Known findings F9 (unused randomness leaves) and F15 (per-attribute sub-proof pairs not tied to the signature; spok_subproofs_untied) reported; F15a (range proof not tied to its opening proof) repaired by 56a5ca8 (spok_loop_ties_range_proofs), F17 (extra trailing list entries ignored) by 386b611 (spok_accepts_lengths).", "DESIGN.md §10 C15", NOTE_CL)
 prop("C16", "proof",
      "Proved: boudot_prove_below_fails / boudot_prove_above_fails -- for a value outside [rmin, rmax] the honest prover returns no proof, whatever the modulus, bases, randomness and draws (tolerance < 2^T); boudot_complete -- every proof the honest prover returns verifies, for every modulus, every pair of invertible bases, every interval, every value and every "
      "sequence of draws incl. negative randomness (all ten algorithms: same-secret, square, larger-interval, tolerance, square-decomposition; exponent arithmetic with negative "
@@ -124,7 +124,8 @@ prop("C16", "proof",
 prop("C17", "proof",
      "The property is VIOLATED by the code (finding F9): machine-checked on the faithful model -- the signature proof embeds Cv = {value, randomness} with value = v g_0^randomness "
      "mod N for every run (spok_carries_opening_of_v), so v is recomputable by the recipient. The sweep runs the property's own attacker on the serialized proofs of the real code "
-     "(opening recomputation, dictionary test, v recovery) and reports the three known-finding classes; anything outside them is a violation.", "DESIGN.md §10 C17", NOTE_CL)
+     "(opening recomputation, dictionary test, v recovery, response differences, and the square-root recomputation from the range proofs) and reports the known-finding classes "
+     "(F9 x 3, F16: every Boudot range proof hands over the value it is about -- same_secret_response_pins_x is its formal core); anything outside them is a violation.", "DESIGN.md §10 C17", NOTE_CL)
 prop("C18", "proof",
      "Construction invariants proved for every sequence of draws: keygen returns N = p q, p <> q, p = 2p'+1, q = 2q'+1 passing the primality test, b and c squares mod N, > 1, "
      "coprime to N (hence squares modulo both factors: qr_mod_factor); bases likewise; commitment-key bases are powers of h, > 1, coprime; public-key byte codec round trip. "
